@@ -716,7 +716,9 @@ class LRItem:
         """
 
         if self.position < len(self.production.rhs):
-            return LRItem(self.production, self.position + 1, self.follow)
+            # Copy the follow set. Sharing it would leak lookaheads merged
+            # into the next state back to this item.
+            return LRItem(self.production, self.position + 1, set(self.follow))
 
     @property
     def symbol_at_position(self):
